@@ -10,19 +10,33 @@ fn main() {
     let args = Args::parse(&argv);
     wpmon::ctx::install_quiet_panic_hook();
     let mut ctx = Ctx::new(args.clone());
-    match args.engine.as_str() {
+    let engine = args.engine.clone();
+    let res = std::panic::catch_unwind(std::panic::AssertUnwindSafe(|| run_engine(&engine, &mut ctx)));
+    if res.is_err() {
+        // A panic that escaped an engine's own catch is a harness error
+        // (exit 3, inconclusive), never a verdict.
+        eprintln!("HARNESS-PANIC engine={} {}", engine, wpmon::ctx::take_last_panic());
+        std::process::exit(3);
+    }
+    ctx.finish();
+}
+
+fn run_engine(engine: &str, ctx: &mut Ctx) {
+    let ctx = &mut *ctx;
+    match engine {
         "noop" => {}
-        "codec" => wpmon::engines::codec::run(&mut ctx),
-        "codec-stream" => wpmon::engines::codec::run_stream(&mut ctx),
-        "iovec" => wpmon::engines::iovec::run(&mut ctx),
-        "stream" => wpmon::engines::stream::run(&mut ctx),
-        "readn" => wpmon::engines::readn::run(&mut ctx),
-        "deque-c15" => wpmon::engines::deque::run_c15(&mut ctx),
-        "deque-c16" => wpmon::engines::deque::run_c16(&mut ctx),
+        "codec" => wpmon::engines::codec::run(ctx),
+        "codec-stream" => wpmon::engines::codec::run_stream(ctx),
+        "iovec" => wpmon::engines::iovec::run(ctx),
+        "stream" => wpmon::engines::stream::run(ctx),
+        "readn" => wpmon::engines::readn::run(ctx),
+        "tlv-c11" => wpmon::engines::tlv::run_c11(ctx),
+        "tlv-c12" => wpmon::engines::tlv::run_c12(ctx),
+        "deque-c15" => wpmon::engines::deque::run_c15(ctx),
+        "deque-c16" => wpmon::engines::deque::run_c16(ctx),
         other => {
             eprintln!("unknown engine {}", other);
             std::process::exit(2);
         }
     }
-    ctx.finish();
 }
